@@ -42,6 +42,8 @@ pub struct Ctx {
     pub panic_only: bool,
     /// when set, failures are tagged `"known": <id>`, printed, but not counted
     pub known: Option<&'static str>,
+    /// tag of the whole current case (`known.rs`); `known` is reset to it, not to `None`
+    pub case_tag: Option<&'static str>,
     pub case_fails: usize,
     pub case_known: usize,
     pub total_fails: usize,
@@ -127,6 +129,7 @@ impl Ctx {
             max_fail,
             panic_only: false,
             known: None,
+            case_tag: None,
             case_fails: 0,
             case_known: 0,
             total_fails: 0,
@@ -144,6 +147,7 @@ impl Ctx {
         self.case_fails = 0;
         self.case_known = 0;
         self.known = None;
+        self.case_tag = None;
     }
 
     /// True when the current case has used up its failure budget. Known-finding hits do not
